@@ -351,6 +351,12 @@ def judge_attempt(sr, inp, res):
     brief["text"] = inp["text"]
     out = res["outcome"]
     sr.dist("%s.%s.%s" % (fmt, kind, out if out != "raise" else "raise." + res.get("family", "?")))
+    # scope of the cited reader theorems (readX text = ok n -> well-formed n), counters only
+    scope = "theorem_scope:c15_%s_accepts_wellformed:" % fmt
+    if out == "raise":
+        sr.dist(scope + "rejected")
+    elif out == "ok":
+        sr.dist(scope + ("observed" if not res.get("wf") and not res.get("wf_bb") else "accepted_conclusion_not_observed"))
     if out == "died":
         sr["obligations"].append(("attempt child ran without internal error", False, str(res.get("info"))[-800:]))
         return
